@@ -2,6 +2,7 @@
    their trace semantics against a device that records what it is handed. No proofs in this file. *)
 From Coq Require Import String.
 From PS Require Import Base.Bytes Base.Result Model.Converter Model.Ctor.
+From PS Require Export Model.Sx.
 Open Scope string_scope.
 
 Inductive farg := FArg (x : string) | FOpcode | FBlocksize.
@@ -58,8 +59,6 @@ Fixpoint trace (f : option failure) (acts : list action) : list event :=
 
 (* ---- the state of a facade object: its attributes, and the stores each function of the class performs
    (REGENERATED: Gen/FacadeTbl.facade_state_writes, facade_blocksize_get) ---- *)
-Inductive sx := SxParam (x : string) | SxAttr (a : string) | SxOther (src : string).
-
 Definition fstate := list (string * cval).          (* attribute -> value *)
 
 (* value of a stored expression: a parameter of the call, another attribute, or something the model does not follow *)
